@@ -390,7 +390,10 @@ pub fn run_build_child_sig(exe: &Path, spec: &BuildSpec, scratch: &Path, tag: &s
     match out {
         Ok(o) => {
             let text = String::from_utf8_lossy(&o.stdout);
-            let res = text.lines().rev().find_map(|l| l.strip_prefix("BUILD-RESULT ")).and_then(|j| serde_json::from_str::<BuildResult>(j).ok());
+            let mut res = text.lines().rev().find_map(|l| l.strip_prefix("BUILD-RESULT ")).and_then(|j| serde_json::from_str::<BuildResult>(j).ok());
+            if let Some(r) = res.as_mut() {
+                r.rerun_if_changed = text.lines().filter_map(|l| l.strip_prefix("cargo:rerun-if-changed=")).map(|s| s.to_string()).collect();
+            }
             (o.status.code(), o.status.signal(), res)
         }
         Err(_) => (None, None, None),
